@@ -56,9 +56,47 @@ Proof.
   apply filter_In in Hz. destruct Hz as [Hz _]. rewrite <- Ez. apply in_map. exact Hz.
 Qed.
 
-Lemma in_close_fd (l : list (fdn * hid)) d d' h' : In (d', h') (close_fd l d) <-> In (d', h') l /\ d' <> d.
+Lemma in_close_ref (l : list (fdn * hid)) d h d' h' :
+  In (d', h') (close_ref l d h) <-> In (d', h') l /\ ~ (d' = d /\ h' = h).
 Proof.
-  unfold close_fd. rewrite filter_In. simpl. rewrite negb_true_iff, Nat.eqb_neq. tauto.
+  unfold close_ref. rewrite filter_In. simpl. rewrite negb_true_iff, andb_false_iff, !Nat.eqb_neq. split.
+  - intros [H [N|N]]; (split; [exact H|]); intros [A B]; contradiction.
+  - intros [H N]. split; [exact H|]. destruct (Nat.eq_dec d' d) as [->|Nd]; [|left; exact Nd].
+    right. intros ->. apply N. split; reflexivity.
+Qed.
+
+(* with one reference per description, closing it removes the description *)
+Lemma in_close_ref_nodup (l : list (fdn * hid)) d h d' h' :
+  NoDup (map fst l) -> In (d, h) l -> (In (d', h') (close_ref l d h) <-> In (d', h') l /\ d' <> d).
+Proof.
+  intros ND Hin. rewrite in_close_ref. split; intros [H N]; (split; [exact H|]).
+  - intros ->. apply N. split; [reflexivity|]. apply (nodup_fst_inj l d); assumption.
+  - intros [A _]. contradiction.
+Qed.
+
+Lemma still_open_false (l : list (fdn * hid)) d : still_open l d = false <-> forall h, ~ In (d, h) l.
+Proof.
+  unfold still_open. split.
+  - intros E h Hin. assert (existsb (fun x => Nat.eqb (fst x) d) l = true); [|congruence].
+    apply existsb_exists. exists (d, h). split; [exact Hin | simpl; apply Nat.eqb_refl].
+  - intro N. destruct (existsb (fun x => Nat.eqb (fst x) d) l) eqn:E; [|reflexivity]. exfalso.
+    apply existsb_exists in E. destruct E as [[d' h] [Hin E]]. simpl in E. apply Nat.eqb_eq in E. subst d'. exact (N h Hin).
+Qed.
+
+Lemma still_open_close_ref (l : list (fdn * hid)) d h :
+  NoDup (map fst l) -> In (d, h) l -> still_open (close_ref l d h) d = false.
+Proof.
+  intros ND Hin. apply still_open_false. intros h' H'. apply (in_close_ref_nodup l d h d h' ND Hin) in H'. destruct H' as [_ N]. apply N. reflexivity.
+Qed.
+
+(* with one reference per description: the description survives a filter iff its reference does *)
+Lemma still_open_filter_unique (f : fdn * hid -> bool) (l : list (fdn * hid)) d h :
+  NoDup (map fst l) -> In (d, h) l -> still_open (filter f l) d = f (d, h).
+Proof.
+  intros ND Hin. destruct (f (d, h)) eqn:E.
+  - unfold still_open. apply existsb_exists. exists (d, h). split; [apply filter_In; split; assumption | simpl; apply Nat.eqb_refl].
+  - apply still_open_false. intros h' H'. apply filter_In in H'. destruct H' as [H' F'].
+    assert (h' = h) by (apply (nodup_fst_inj l d); assumption). subst h'. congruence.
 Qed.
 
 (* ---- handle states *)
@@ -81,6 +119,7 @@ Record inv (s : lstate) : Prop := {
   i_lt : forall d h, In (d, h) (l_open s) -> d < l_next s;
   i_nodup : NoDup (map fst (l_open s));
   i_fd : forall h d, hfd (l_h s h) = Some d -> In (d, h) (l_open s);
+  i_ref : forall d h, In (d, h) (l_open s) -> hfd (l_h s h) = Some d;       (* every open descriptor is one a handle's program is using: an idle handle holds none *)
   i_owner : forall o, l_owner s = Some o -> exists d h, o = OwnD d /\ l_h s h = HHeld d;
   i_held : forall h d, l_h s h = HHeld d -> l_owner s = Some (OwnD d) }.
 
@@ -109,129 +148,200 @@ Proof.
   subst h0. exact (Hn d Hh0).
 Qed.
 
-Lemma inv_step s e s' : inv s -> step s e = Some s' -> inv s'.
+(* closing a descriptor that does not carry the lock leaves the owner alone *)
+Lemma close_release_not_holder s h d :
+  inv s -> hfd (l_h s h) = Some d -> (forall d', l_h s h <> HHeld d') ->
+  close_release ByDescription proc (l_owner s) (close_ref (l_open s) d h) d h = l_owner s.
 Proof.
-  intros I St. destruct e as [h k|p]; simpl in St.
-  - destruct k as [|ok| | |]; destruct (l_h s h) as [|d|d|d|d|] eqn:Eh; try discriminate.
-    + (* KOpen *)
-      inversion St; subst s'; clear St. constructor; simpl.
-      * intros d h' [E|Hin]; [inversion E; lia | pose proof (i_lt s I d h' Hin); lia].
-      * constructor; [|apply I]. intro Hin. apply in_map_iff in Hin. destruct Hin as [[d' h'] [E Hin]]. simpl in E. subst d'.
-        pose proof (i_lt s I _ _ Hin). lia.
-      * intros h' d Hd. destruct (Nat.eq_dec h' h) as [->|N].
-        -- rewrite lupd_same in Hd. inversion Hd; subst. left. reflexivity.
-        -- rewrite lupd_other in Hd by exact N. right. apply I. exact Hd.
-      * intros o Eo. destruct (i_owner s I o Eo) as [d0 [h0 [-> Hh0]]]. exists d0, h0. split; [reflexivity|].
-        rewrite lupd_other; [exact Hh0|]. intros ->. rewrite Eh in Hh0. discriminate.
-      * intros h' d Hd. destruct (Nat.eq_dec h' h) as [->|N].
-        -- rewrite lupd_same in Hd. discriminate.
-        -- rewrite lupd_other in Hd by exact N. apply I with h'. exact Hd.
-    + (* KTry *)
-      destruct (Bool.eqb ok (grants ByDescription proc (l_owner s) d h)) eqn:Eg; [|discriminate].
-      apply eqb_prop in Eg. destruct ok.
-      * (* granted: nobody owned it *)
-        assert (On : l_owner s = None).
-        { destruct (l_owner s) as [o|] eqn:Eo; [|reflexivity]. exfalso.
-          destruct (i_owner s I o Eo) as [d0 [h0 [-> Hh0]]]. simpl in Eg. symmetry in Eg. apply Nat.eqb_eq in Eg. subst d0.
-          assert (h0 = h) by (apply (fd_unique s h0 h d I); [rewrite Hh0 | rewrite Eh]; reflexivity).
-          subst h0. rewrite Eh in Hh0. discriminate. }
-        inversion St; subst s'; clear St. constructor; simpl.
-        -- apply I.
-        -- apply I.
-        -- intros h' d' Hd. destruct (Nat.eq_dec h' h) as [->|N].
-           ++ rewrite lupd_same in Hd. apply I. rewrite Eh. exact Hd.
-           ++ rewrite lupd_other in Hd by exact N. apply I. exact Hd.
-        -- intros o Eo. inversion Eo; subst o. exists d, h. split; [reflexivity | apply lupd_same].
-        -- intros h' d' Hd. destruct (Nat.eq_dec h' h) as [->|N].
-           ++ rewrite lupd_same in Hd. inversion Hd; subst. reflexivity.
-           ++ rewrite lupd_other in Hd by exact N. pose proof (i_held s I h' d' Hd) as Ho. rewrite On in Ho. discriminate.
-      * (* refused *)
-        inversion St; subst s'; clear St. constructor; simpl.
-        -- apply I.
-        -- apply I.
-        -- intros h' d' Hd. destruct (Nat.eq_dec h' h) as [->|N].
-           ++ rewrite lupd_same in Hd. apply I. rewrite Eh. exact Hd.
-           ++ rewrite lupd_other in Hd by exact N. apply I. exact Hd.
-        -- intros o Eo. destruct (i_owner s I o Eo) as [d0 [h0 [-> Hh0]]]. exists d0, h0. split; [reflexivity|].
-           rewrite lupd_other; [exact Hh0|]. intros ->. rewrite Eh in Hh0. discriminate.
-        -- intros h' d' Hd. destruct (Nat.eq_dec h' h) as [->|N].
-           ++ rewrite lupd_same in Hd. discriminate.
-           ++ rewrite lupd_other in Hd by exact N. apply I with h'. exact Hd.
-    + (* KCloseRefused *)
-      assert (R : release_by ByDescription proc (l_owner s) d h = l_owner s).
-      { apply release_by_not_holder; [exact I | rewrite Eh; reflexivity | intros d'; rewrite Eh; discriminate]. }
-      inversion St; subst s'; clear St. constructor; simpl.
-      * intros d' h' Hin. apply in_close_fd in Hin. apply I with h'. apply Hin.
-      * apply nodup_fst_filter. apply I.
-      * intros h' d' Hd. destruct (Nat.eq_dec h' h) as [->|N].
-        -- rewrite lupd_same in Hd. discriminate.
-        -- rewrite lupd_other in Hd by exact N. apply in_close_fd. split; [apply I; exact Hd|].
-           intros ->. apply N. apply (fd_unique s h' h d I); [exact Hd | rewrite Eh; reflexivity].
-      * rewrite R. intros o Eo. destruct (i_owner s I o Eo) as [d0 [h0 [-> Hh0]]]. exists d0, h0. split; [reflexivity|].
-        rewrite lupd_other; [exact Hh0|]. intros ->. rewrite Eh in Hh0. discriminate.
-      * rewrite R. intros h' d' Hd. destruct (Nat.eq_dec h' h) as [->|N].
-        -- rewrite lupd_same in Hd. discriminate.
-        -- rewrite lupd_other in Hd by exact N. apply I with h'. exact Hd.
-    + (* KUnlock *)
-      assert (R : release_by ByDescription proc (l_owner s) d h = None).
-      { unfold release_by. rewrite (i_held s I h d Eh). simpl. rewrite Nat.eqb_refl. reflexivity. }
-      inversion St; subst s'; clear St. constructor; simpl.
-      * apply I.
-      * apply I.
-      * intros h' d' Hd. destruct (Nat.eq_dec h' h) as [->|N].
-        -- rewrite lupd_same in Hd. apply I. rewrite Eh. exact Hd.
-        -- rewrite lupd_other in Hd by exact N. apply I. exact Hd.
-      * rewrite R. intros o Eo. discriminate.
-      * intros h' d' Hd. destruct (Nat.eq_dec h' h) as [->|N].
-        -- rewrite lupd_same in Hd. discriminate.
-        -- rewrite lupd_other in Hd by exact N. exfalso. apply N.
-           pose proof (i_held s I h' d' Hd) as O1. pose proof (i_held s I h d Eh) as O2. rewrite O1 in O2. inversion O2; subst d'.
-           apply (fd_unique s h' h d I); [rewrite Hd | rewrite Eh]; reflexivity.
-    + (* KClose *)
-      assert (R : release_by ByDescription proc (l_owner s) d h = l_owner s).
-      { apply release_by_not_holder; [exact I | rewrite Eh; reflexivity | intros d'; rewrite Eh; discriminate]. }
-      inversion St; subst s'; clear St. constructor; simpl.
-      * intros d' h' Hin. apply in_close_fd in Hin. apply I with h'. apply Hin.
-      * apply nodup_fst_filter. apply I.
-      * intros h' d' Hd. destruct (Nat.eq_dec h' h) as [->|N].
-        -- rewrite lupd_same in Hd. discriminate.
-        -- rewrite lupd_other in Hd by exact N. apply in_close_fd. split; [apply I; exact Hd|].
-           intros ->. apply N. apply (fd_unique s h' h d I); [exact Hd | rewrite Eh; reflexivity].
-      * rewrite R. intros o Eo. destruct (i_owner s I o Eo) as [d0 [h0 [-> Hh0]]]. exists d0, h0. split; [reflexivity|].
-        rewrite lupd_other; [exact Hh0|]. intros ->. rewrite Eh in Hh0. discriminate.
-      * rewrite R. intros h' d' Hd. destruct (Nat.eq_dec h' h) as [->|N].
-        -- rewrite lupd_same in Hd. discriminate.
-        -- rewrite lupd_other in Hd by exact N. apply I with h'. exact Hd.
-  - (* LKill *)
-    inversion St; subst s'; clear St. constructor; simpl.
+  intros I Hd Hn. unfold close_release.
+  rewrite (still_open_close_ref (l_open s) d h (i_nodup s I) (i_fd s I h d Hd)).
+  apply release_by_not_holder; assumption.
+Qed.
+
+(* an idle handle holds no descriptor: a quiescent fork has nothing to inherit *)
+Lemma inherited_idle s h h' : inv s -> l_h s h = HIdle -> inherited (l_open s) h h' = [].
+Proof.
+  intros I Hi. unfold inherited.
+  match goal with |- map _ ?F = [] => destruct F as [|[d k] r] eqn:E; [reflexivity|] end. exfalso.
+  assert (Hin : In (d, k) ((d, k) :: r)) by (left; reflexivity).
+  rewrite <- E in Hin. apply filter_In in Hin. destruct Hin as [Hin Ek]. simpl in Ek. apply Nat.eqb_eq in Ek. subst k.
+  pose proof (i_ref s I d h Hin) as R. rewrite Hi in R. discriminate.
+Qed.
+
+Lemma lupd_id (f : hid -> hstate) h x : f h = x -> forall k, lupd f h x k = f k.
+Proof. intros E k. unfold lupd. destruct (Nat.eqb k h) eqn:Ek; [apply Nat.eqb_eq in Ek; subst k; symmetry; exact E | reflexivity]. Qed.
+
+(* what a quiescent fork does to the state: nothing (the topology already says where the twin lives) *)
+Lemma quiescent_fork_inherits_nothing s h h' s' :
+  inv s -> l_h s h = HIdle -> step s (LFork h h') = Some s' ->
+  l_open s' = l_open s /\ l_next s' = l_next s /\ l_owner s' = l_owner s /\ forall k, l_h s' k = l_h s k.
+Proof.
+  intros I Hi St. simpl in St. destruct (l_h s h') eqn:Eh'; try discriminate. rewrite Hi in St.
+  destruct (negb (Nat.eqb (proc h) (proc h')) && negb (has_refs (l_open s) h')); [|discriminate].
+  inversion St; subst s'; clear St. simpl. rewrite (inherited_idle s h h' I Hi), app_nil_r.
+  repeat split. apply lupd_id. exact Eh'.
+Qed.
+
+Lemma inv_ext s s' :
+  inv s -> l_open s' = l_open s -> l_next s' = l_next s -> l_owner s' = l_owner s -> (forall k, l_h s' k = l_h s k) -> inv s'.
+Proof.
+  intros I E1 E2 E3 E4. constructor; rewrite ?E1, ?E2, ?E3; try apply I.
+  - intros h d. rewrite E4. apply I.
+  - intros d h Hin. rewrite E4. apply I. exact Hin.
+  - intros o Eo. destruct (i_owner s I o Eo) as [d [h [-> Hh]]]. exists d, h. rewrite E4. auto.
+  - intros h d. rewrite E4. apply I.
+Qed.
+
+Lemma inv_step s e s' : inv s -> fork_quiescent s e -> step s e = Some s' -> inv s'.
+Proof.
+  intros I Q St. destruct e as [h k|p|h h'].
+  2: { (* LKill *)
+    simpl in St. inversion St; subst s'; clear St. unfold refs_after_kill. constructor; simpl.
     + intros d h Hin. apply filter_In in Hin. apply I with h. apply Hin.
     + apply nodup_fst_filter. apply I.
     + intros h d Hd. destruct (in_proc proc p h) eqn:Ep; [discriminate|].
       apply filter_In. split; [apply I; exact Hd | simpl; rewrite Ep; reflexivity].
-    + intros o Eo. unfold owner_after_kill in Eo. destruct (l_owner s) as [o0|] eqn:Eo0; [|discriminate].
+    + intros d h Hin. apply filter_In in Hin. destruct Hin as [Hin Ep]. simpl in Ep. apply negb_true_iff in Ep. rewrite Ep.
+      apply I. exact Hin.
+    + intros o Eo. unfold owner_after_kill, refs_after_kill in Eo. destruct (l_owner s) as [o0|] eqn:Eo0; [|discriminate].
       destruct (i_owner s I o0 Eo0) as [d0 [h0 [-> Hh0]]].
-      assert (Op : opener (l_open s) d0 = Some h0).
-      { apply opener_in; [apply I | apply I; rewrite Hh0; reflexivity]. }
-      rewrite Op in Eo. destruct (in_proc proc p h0) eqn:Ep; [discriminate|]. inversion Eo; subst o.
+      rewrite (still_open_filter_unique _ (l_open s) d0 h0 (i_nodup s I)) in Eo by (apply I; rewrite Hh0; reflexivity).
+      simpl in Eo. destruct (in_proc proc p h0) eqn:Ep; [discriminate|]. inversion Eo; subst o.
       exists d0, h0. split; [reflexivity|]. rewrite Ep. exact Hh0.
     + intros h d Hd. destruct (in_proc proc p h) eqn:Ep; [discriminate|].
-      unfold owner_after_kill. rewrite (i_held s I h d Hd).
-      assert (Op : opener (l_open s) d = Some h).
-      { apply opener_in; [apply I | apply I; rewrite Hd; reflexivity]. }
-      rewrite Op, Ep. reflexivity.
+      unfold owner_after_kill, refs_after_kill. rewrite (i_held s I h d Hd).
+      rewrite (still_open_filter_unique _ (l_open s) d h (i_nodup s I)) by (apply I; rewrite Hd; reflexivity).
+      simpl. rewrite Ep. reflexivity. }
+  2: { (* LFork: quiescent, nothing is inherited *)
+    simpl in Q. destruct (quiescent_fork_inherits_nothing s h h' s' I Q St) as [E1 [E2 [E3 E4]]].
+    exact (inv_ext s s' I E1 E2 E3 E4). }
+  simpl in St.
+  destruct k as [|ok| | |]; destruct (l_h s h) as [|d|d|d|d|] eqn:Eh; try discriminate.
+  + (* KOpen *)
+    inversion St; subst s'; clear St. constructor; simpl.
+    * intros d h' [E|Hin]; [inversion E; lia | pose proof (i_lt s I d h' Hin); lia].
+    * constructor; [|apply I]. intro Hin. apply in_map_iff in Hin. destruct Hin as [[d' h'] [E Hin]]. simpl in E. subst d'.
+      pose proof (i_lt s I _ _ Hin). lia.
+    * intros h' d Hd. destruct (Nat.eq_dec h' h) as [->|N].
+      -- rewrite lupd_same in Hd. inversion Hd; subst. left. reflexivity.
+      -- rewrite lupd_other in Hd by exact N. right. apply I. exact Hd.
+    * intros d h' [E|Hin].
+      -- inversion E; subst. rewrite lupd_same. reflexivity.
+      -- destruct (Nat.eq_dec h' h) as [->|N].
+         ++ pose proof (i_ref s I d h Hin) as R. rewrite Eh in R. discriminate.
+         ++ rewrite lupd_other by exact N. apply I. exact Hin.
+    * intros o Eo. destruct (i_owner s I o Eo) as [d0 [h0 [-> Hh0]]]. exists d0, h0. split; [reflexivity|].
+      rewrite lupd_other; [exact Hh0|]. intros ->. rewrite Eh in Hh0. discriminate.
+    * intros h' d Hd. destruct (Nat.eq_dec h' h) as [->|N].
+      -- rewrite lupd_same in Hd. discriminate.
+      -- rewrite lupd_other in Hd by exact N. apply I with h'. exact Hd.
+  + (* KTry *)
+    destruct (Bool.eqb ok (grants ByDescription proc (l_owner s) d h)) eqn:Eg; [|discriminate].
+    apply eqb_prop in Eg. destruct ok.
+    * (* granted: nobody owned it *)
+      assert (On : l_owner s = None).
+      { destruct (l_owner s) as [o|] eqn:Eo; [|reflexivity]. exfalso.
+        destruct (i_owner s I o Eo) as [d0 [h0 [-> Hh0]]]. simpl in Eg. symmetry in Eg. apply Nat.eqb_eq in Eg. subst d0.
+        assert (h0 = h) by (apply (fd_unique s h0 h d I); [rewrite Hh0 | rewrite Eh]; reflexivity).
+        subst h0. rewrite Eh in Hh0. discriminate. }
+      inversion St; subst s'; clear St. constructor; simpl.
+      -- apply I.
+      -- apply I.
+      -- intros h' d' Hd. destruct (Nat.eq_dec h' h) as [->|N].
+         ++ rewrite lupd_same in Hd. apply I. rewrite Eh. exact Hd.
+         ++ rewrite lupd_other in Hd by exact N. apply I. exact Hd.
+      -- intros d' h' Hin. destruct (Nat.eq_dec h' h) as [->|N].
+         ++ rewrite lupd_same. pose proof (i_ref s I d' h Hin) as R. rewrite Eh in R. exact R.
+         ++ rewrite lupd_other by exact N. apply I. exact Hin.
+      -- intros o Eo. inversion Eo; subst o. exists d, h. split; [reflexivity | apply lupd_same].
+      -- intros h' d' Hd. destruct (Nat.eq_dec h' h) as [->|N].
+         ++ rewrite lupd_same in Hd. inversion Hd; subst. reflexivity.
+         ++ rewrite lupd_other in Hd by exact N. pose proof (i_held s I h' d' Hd) as Ho. rewrite On in Ho. discriminate.
+    * (* refused *)
+      inversion St; subst s'; clear St. constructor; simpl.
+      -- apply I.
+      -- apply I.
+      -- intros h' d' Hd. destruct (Nat.eq_dec h' h) as [->|N].
+         ++ rewrite lupd_same in Hd. apply I. rewrite Eh. exact Hd.
+         ++ rewrite lupd_other in Hd by exact N. apply I. exact Hd.
+      -- intros d' h' Hin. destruct (Nat.eq_dec h' h) as [->|N].
+         ++ rewrite lupd_same. pose proof (i_ref s I d' h Hin) as R. rewrite Eh in R. exact R.
+         ++ rewrite lupd_other by exact N. apply I. exact Hin.
+      -- intros o Eo. destruct (i_owner s I o Eo) as [d0 [h0 [-> Hh0]]]. exists d0, h0. split; [reflexivity|].
+         rewrite lupd_other; [exact Hh0|]. intros ->. rewrite Eh in Hh0. discriminate.
+      -- intros h' d' Hd. destruct (Nat.eq_dec h' h) as [->|N].
+         ++ rewrite lupd_same in Hd. discriminate.
+         ++ rewrite lupd_other in Hd by exact N. apply I with h'. exact Hd.
+  + (* KCloseRefused *)
+    assert (Hin0 : In (d, h) (l_open s)) by (apply I; rewrite Eh; reflexivity).
+    assert (R : close_release ByDescription proc (l_owner s) (close_ref (l_open s) d h) d h = l_owner s).
+    { apply close_release_not_holder; [exact I | rewrite Eh; reflexivity | intros d'; rewrite Eh; discriminate]. }
+    unfold close_release in R. inversion St; subst s'; clear St. constructor; cbn [l_open l_next l_owner l_h].
+    * intros d' h' Hin. apply in_close_ref in Hin. apply I with h'. apply Hin.
+    * apply nodup_fst_filter. apply I.
+    * intros h' d' Hd. destruct (Nat.eq_dec h' h) as [->|N].
+      -- rewrite lupd_same in Hd. discriminate.
+      -- rewrite lupd_other in Hd by exact N. apply in_close_ref. split; [apply I; exact Hd|]. intros [_ E]. contradiction.
+    * intros d' h' Hin. apply (in_close_ref_nodup _ d h d' h' (i_nodup s I) Hin0) in Hin. destruct Hin as [Hin Nd].
+      destruct (Nat.eq_dec h' h) as [->|N].
+      -- pose proof (i_ref s I d' h Hin) as R'. rewrite Eh in R'. inversion R'. congruence.
+      -- rewrite lupd_other by exact N. apply I. exact Hin.
+    * rewrite R. intros o Eo. destruct (i_owner s I o Eo) as [d0 [h0 [-> Hh0]]]. exists d0, h0. split; [reflexivity|].
+      rewrite lupd_other; [exact Hh0|]. intros ->. rewrite Eh in Hh0. discriminate.
+    * rewrite R. intros h' d' Hd. destruct (Nat.eq_dec h' h) as [->|N].
+      -- rewrite lupd_same in Hd. discriminate.
+      -- rewrite lupd_other in Hd by exact N. apply I with h'. exact Hd.
+  + (* KUnlock *)
+    assert (R : release_by ByDescription proc (l_owner s) d h = None).
+    { unfold release_by. rewrite (i_held s I h d Eh). simpl. rewrite Nat.eqb_refl. reflexivity. }
+    inversion St; subst s'; clear St. constructor; simpl.
+    * apply I.
+    * apply I.
+    * intros h' d' Hd. destruct (Nat.eq_dec h' h) as [->|N].
+      -- rewrite lupd_same in Hd. apply I. rewrite Eh. exact Hd.
+      -- rewrite lupd_other in Hd by exact N. apply I. exact Hd.
+    * intros d' h' Hin. destruct (Nat.eq_dec h' h) as [->|N].
+      -- rewrite lupd_same. pose proof (i_ref s I d' h Hin) as R'. rewrite Eh in R'. exact R'.
+      -- rewrite lupd_other by exact N. apply I. exact Hin.
+    * rewrite R. intros o Eo. discriminate.
+    * intros h' d' Hd. destruct (Nat.eq_dec h' h) as [->|N].
+      -- rewrite lupd_same in Hd. discriminate.
+      -- rewrite lupd_other in Hd by exact N. exfalso. apply N.
+         pose proof (i_held s I h' d' Hd) as O1. pose proof (i_held s I h d Eh) as O2. rewrite O1 in O2. inversion O2; subst d'.
+         apply (fd_unique s h' h d I); [rewrite Hd | rewrite Eh]; reflexivity.
+  + (* KClose *)
+    assert (Hin0 : In (d, h) (l_open s)) by (apply I; rewrite Eh; reflexivity).
+    assert (R : close_release ByDescription proc (l_owner s) (close_ref (l_open s) d h) d h = l_owner s).
+    { apply close_release_not_holder; [exact I | rewrite Eh; reflexivity | intros d'; rewrite Eh; discriminate]. }
+    unfold close_release in R. inversion St; subst s'; clear St. constructor; cbn [l_open l_next l_owner l_h].
+    * intros d' h' Hin. apply in_close_ref in Hin. apply I with h'. apply Hin.
+    * apply nodup_fst_filter. apply I.
+    * intros h' d' Hd. destruct (Nat.eq_dec h' h) as [->|N].
+      -- rewrite lupd_same in Hd. discriminate.
+      -- rewrite lupd_other in Hd by exact N. apply in_close_ref. split; [apply I; exact Hd|]. intros [_ E]. contradiction.
+    * intros d' h' Hin. apply (in_close_ref_nodup _ d h d' h' (i_nodup s I) Hin0) in Hin. destruct Hin as [Hin Nd].
+      destruct (Nat.eq_dec h' h) as [->|N].
+      -- pose proof (i_ref s I d' h Hin) as R'. rewrite Eh in R'. inversion R'. congruence.
+      -- rewrite lupd_other by exact N. apply I. exact Hin.
+    * rewrite R. intros o Eo. destruct (i_owner s I o Eo) as [d0 [h0 [-> Hh0]]]. exists d0, h0. split; [reflexivity|].
+      rewrite lupd_other; [exact Hh0|]. intros ->. rewrite Eh in Hh0. discriminate.
+    * rewrite R. intros h' d' Hd. destruct (Nat.eq_dec h' h) as [->|N].
+      -- rewrite lupd_same in Hd. discriminate.
+      -- rewrite lupd_other in Hd by exact N. apply I with h'. exact Hd.
 Qed.
 
-Lemma inv_step_skip s e : inv s -> inv (lstep_skip ByDescription proc s e).
+Lemma inv_step_skip s e : inv s -> fork_quiescent s e -> inv (lstep_skip ByDescription proc s e).
 Proof.
-  intro I. unfold lstep_skip. destruct (step s e) as [s'|] eqn:E; [exact (inv_step s e s' I E) | exact I].
+  intros I Q. unfold lstep_skip. destruct (step s e) as [s'|] eqn:E; [exact (inv_step s e s' I Q E) | exact I].
 Qed.
 
-Lemma inv_run evs : forall s, inv s -> inv (run s evs).
+Lemma inv_run evs : forall s, inv s -> forks_quiescent ByDescription proc s evs -> inv (run s evs).
 Proof.
-  induction evs as [|e evs IH]; intros s I; simpl; [exact I|]. apply IH. apply inv_step_skip. exact I.
+  induction evs as [|e evs IH]; intros s I Q; simpl; [exact I|]. destruct Q as [Q1 Q2].
+  apply IH; [apply inv_step_skip; assumption | exact Q2].
 Qed.
 
-Lemma reach_inv evs : inv (run linit evs).
+Lemma reach_inv evs : forks_quiescent ByDescription proc linit evs -> inv (run linit evs).
 Proof. apply inv_run. apply inv_init. Qed.
 
 (* ---- consequences of the invariant *)
@@ -281,10 +391,14 @@ Proof.
   - symmetry. apply lholds_upd_other. exact N.
 Qed.
 
-Lemma step_view_effect s e s' : inv s -> step s e = Some s' -> view_effect proc s e s'.
+Lemma step_view_effect s e s' : inv s -> fork_quiescent s e -> step s e = Some s' -> view_effect proc s e s'.
 Proof.
-  intros I St. pose proof (inv_step s e s' I St) as I'.
-  destruct e as [h k|p]; simpl in St.
+  intros I Q St. pose proof (inv_step s e s' I Q St) as I'.
+  destruct e as [h k|p|h h'].
+  3: { (* LFork: quiescent, the state is the same *)
+    simpl in Q. destruct (quiescent_fork_inherits_nothing s h h' s' I Q St) as [E1 [E2 [E3 E4]]].
+    simpl. unfold lock_view. rewrite E1, E3. reflexivity. }
+  all: simpl in St.
   - destruct k as [|ok| | |]; destruct (l_h s h) as [|d|d|d|d|] eqn:Eh; try discriminate.
     + (* KOpen *)
       inversion St; subst s'. simpl. apply view_eq; [exact I | exact I' |].
@@ -330,7 +444,13 @@ Qed.
 Lemma step_keeps_holder s e s' h :
   step s e = Some s' -> lholds s h -> e <> LStep h KUnlock -> e <> LKill (proc h) -> lholds s' h.
 Proof.
-  intros St [d Hd] N1 N2. destruct e as [h0 k|p]; simpl in St.
+  intros St [d Hd] N1 N2. destruct e as [h0 k|p|h0 h']; simpl in St.
+  3: { (* LFork: the twin is a new (idle) handle, not the holder *)
+    destruct (l_h s h') eqn:Eh'; try discriminate.
+    assert (Nh : h <> h') by (intros ->; rewrite Hd in Eh'; discriminate).
+    exists d. destruct (l_h s h0); try discriminate;
+      (destruct (negb (Nat.eqb (proc h0) (proc h')) && negb (has_refs (l_open s) h')); [|discriminate]);
+      inversion St; subst s'; simpl; rewrite lupd_other by exact Nh; exact Hd. }
   - destruct (Nat.eq_dec h0 h) as [->|N].
     + rewrite Hd in St. destruct k as [|ok| | |]; try discriminate. exfalso. apply N1. reflexivity.
     + exists d.
@@ -370,52 +490,66 @@ Proof. reflexivity. Qed.
 Lemma release_regenerated : flat_map lactions_of release_events = gen_release.
 Proof. reflexivity. Qed.
 
-(* ---- statements over the REGENERATED discipline, for every topology and every event list *)
-Lemma gen_lock_exclusive : forall proc evs h1 h2,
+(* ---- statements over the REGENERATED discipline, for every topology and every event list whose forks are quiescent *)
+Lemma gen_lock_exclusive : forall proc evs h1 h2, forks_quiescent gen_lock_disc proc linit evs ->
   let s := lrun gen_lock_disc proc linit evs in lholds s h1 -> lholds s h2 -> h1 = h2.
 Proof.
-  intros proc evs h1 h2. rewrite gen_disc_is_by_description. apply inv_exclusive. apply (reach_inv proc).
+  intros proc evs h1 h2. rewrite gen_disc_is_by_description. intro Q. apply inv_exclusive. apply (reach_inv proc). exact Q.
 Qed.
 
-Lemma gen_lock_flag_is_view : forall proc evs h,
+Lemma gen_lock_flag_is_view : forall proc evs h, forks_quiescent gen_lock_disc proc linit evs ->
   let s := lrun gen_lock_disc proc linit evs in lholds s h <-> lock_view s = Some h.
 Proof.
-  intros proc evs h. rewrite gen_disc_is_by_description. apply inv_flag_iff_view. apply (reach_inv proc).
+  intros proc evs h. rewrite gen_disc_is_by_description. intro Q. apply inv_flag_iff_view. apply (reach_inv proc). exact Q.
 Qed.
 
-Lemma gen_lock_refines_excl : forall proc evs e s',
+Lemma gen_lock_refines_excl : forall proc evs e s', forks_quiescent gen_lock_disc proc linit evs ->
   let s := lrun gen_lock_disc proc linit evs in
-  lstep gen_lock_disc proc s e = Some s' -> view_effect proc s e s'.
+  fork_quiescent s e -> lstep gen_lock_disc proc s e = Some s' -> view_effect proc s e s'.
 Proof.
-  intros proc evs e s'. rewrite gen_disc_is_by_description. apply step_view_effect. apply reach_inv.
+  intros proc evs e s'. rewrite gen_disc_is_by_description. intro Q. apply step_view_effect. apply reach_inv. exact Q.
 Qed.
 
-Lemma gen_lock_keeps_holder : forall proc evs e s' h,
+Lemma gen_lock_keeps_holder : forall proc evs e s' h, forks_quiescent gen_lock_disc proc linit evs ->
   let s := lrun gen_lock_disc proc linit evs in
-  lstep gen_lock_disc proc s e = Some s' -> lholds s h -> e <> LStep h KUnlock -> e <> LKill (proc h) ->
+  fork_quiescent s e -> lstep gen_lock_disc proc s e = Some s' -> lholds s h -> e <> LStep h KUnlock -> e <> LKill (proc h) ->
   lholds s' h /\ lock_view s' = Some h.
 Proof.
-  intros proc evs e s' h. rewrite gen_disc_is_by_description. intros s St Hh N1 N2.
+  intros proc evs e s' h. rewrite gen_disc_is_by_description. intros Q s Qe St Hh N1 N2.
   assert (H' : lholds s' h) by (apply (step_keeps_holder proc s e s' h St Hh N1 N2)).
   split; [exact H'|].
   apply (inv_flag_iff_view s' h); [|exact H'].
-  apply (inv_step proc s e s'); [apply reach_inv | exact St].
+  apply (inv_step proc s e s'); [apply reach_inv; exact Q | exact Qe | exact St].
 Qed.
 
-Lemma gen_lock_free_is_granted : forall proc evs h,
+Lemma gen_lock_free_is_granted : forall proc evs h, forks_quiescent gen_lock_disc proc linit evs ->
   let s := lrun gen_lock_disc proc linit evs in
   l_h s h = HIdle -> lock_view s = None ->
   exists s', lrun_strict gen_lock_disc proc s (map (LStep h) attempt_granted_events) 0 = inl s' /\ lholds s' h /\ lock_view s' = Some h.
 Proof.
-  intros proc evs h. rewrite gen_disc_is_by_description. apply free_lock_is_granted. apply reach_inv.
+  intros proc evs h. rewrite gen_disc_is_by_description. intro Q. apply free_lock_is_granted. apply reach_inv. exact Q.
 Qed.
 
-Lemma gen_lock_refinement : forall (proc : hid -> pid) evs,
+Lemma gen_lock_refinement : forall (proc : hid -> pid) evs, forks_quiescent gen_lock_disc proc linit evs ->
   let s := lrun gen_lock_disc proc linit evs in
   (forall h, lholds s h <-> lock_view s = Some h)
-  /\ (forall e s', lstep gen_lock_disc proc s e = Some s' -> view_effect proc s e s').
+  /\ (forall e s', fork_quiescent s e -> lstep gen_lock_disc proc s e = Some s' -> view_effect proc s e s').
 Proof.
-  intros proc evs s. split; [exact (gen_lock_flag_is_view proc evs) | exact (gen_lock_refines_excl proc evs)].
+  intros proc evs Q s. split; [intro h; exact (gen_lock_flag_is_view proc evs h Q) | intros e s'; exact (gen_lock_refines_excl proc evs e s' Q)].
+Qed.
+
+(* an idle handle of the regenerated program holds no descriptor of the lock file, so a worker forked while its
+   parent's handle is idle inherits nothing: the fork changes no descriptor table, no owner, no handle state *)
+Lemma gen_lock_fork_inherits_nothing : forall (proc : hid -> pid) evs, forks_quiescent gen_lock_disc proc linit evs ->
+  let s := lrun gen_lock_disc proc linit evs in
+  (forall h d, l_h s h = HIdle -> ~ In (d, h) (l_open s))
+  /\ (forall h h' s', l_h s h = HIdle -> lstep gen_lock_disc proc s (LFork h h') = Some s' ->
+        l_open s' = l_open s /\ l_next s' = l_next s /\ l_owner s' = l_owner s /\ forall k, l_h s' k = l_h s k).
+Proof.
+  intros proc evs. rewrite gen_disc_is_by_description. intros Q s.
+  pose proof (reach_inv proc evs Q) as I. fold s in I. split.
+  - intros h d Hi Hin. pose proof (i_ref s I d h Hin) as R. rewrite Hi in R. discriminate.
+  - intros h h' s' Hi St. exact (quiescent_fork_inherits_nothing proc s h h' s' I Hi St).
 Qed.
 
 Lemma gen_lock_skeleton :
@@ -423,7 +557,8 @@ Lemma gen_lock_skeleton :
   /\ flat_map lactions_of attempt_granted_events = gen_attempt_granted
   /\ flat_map lactions_of attempt_refused_events = gen_attempt_refused
   /\ flat_map lactions_of release_events = gen_release
-  /\ (forall (proc : hid -> pid) evs h, let s := lrun gen_lock_disc proc linit evs in
+  /\ (forall (proc : hid -> pid) evs h, forks_quiescent gen_lock_disc proc linit evs ->
+        let s := lrun gen_lock_disc proc linit evs in
         l_h s h = HIdle -> lock_view s = None ->
         exists s', lrun_strict gen_lock_disc proc s (map (LStep h) attempt_granted_events) 0 = inl s'
                    /\ lholds s' h /\ lock_view s' = Some h).
